@@ -115,7 +115,9 @@ def gen_program(tape, phase, special):
             break
         chosen.append(src[tape.draw(len(src), 'pool.pick')])
     nproc = 1 + tape.draw(2, 'nproc')
-    focus = tape.draw(5, 'focus')        # 4: log-heavy program; 3: everybody works on one key
+    focus = tape.draw(6, 'focus')        # 4: log-heavy program; 3/5: everybody works on one key
+    if focus == 5:
+        focus = 3
     if focus == 3:
         # hot key: transactions and readers of one entry (biased to one that carries results)
         hot = [e['idx'] for e in POOL if e['has_results']]
@@ -125,6 +127,8 @@ def gen_program(tape, phase, special):
     uid = [0]
     for p in range(nproc):
         nthr = 1 + tape.draw(2, 'nthr')
+        if focus == 3 and nproc == 1:
+            nthr = 2
         for t in range(nthr):
             nops = 1 + tape.draw(3, 'nops')
             ops = []
@@ -157,7 +161,8 @@ def gen_program(tape, phase, special):
                 else:
                     ops.append({'kind': kind, 'model': m})
             threads.append({'pid': p + 1, 'name': f'p{p + 1}.t{t + 1}', 'ops': ops})
-    return {'models': chosen, 'threads': threads, 'nproc': nproc}
+    return {'models': chosen, 'threads': threads, 'nproc': nproc, 'focus': focus,
+            'prestore': focus == 3 and tape.draw(3, 'hot.prestore') != 0}
 
 
 def run_one(cfg, tape, want_trace=False):
@@ -288,6 +293,19 @@ def run_one(cfg, tape, want_trace=False):
                     # fresh objects in each (virtual) process; opening the context is not
                     # part of the workload (no faults, no yields: called from the main thread)
                     ctxs[pid] = base.quiet(base._P['Ctx']('ctx', ref=root))
+                if prog.get('prestore'):
+                    # hot key already committed before the concurrent phase starts: every
+                    # concurrent read of it must succeed, whatever later transactions do
+                    e0 = POOL[prog['models'][0]]
+                    op0 = {'kind': 'store', 'model': e0['idx']}
+                    if not base.name_conflict(ref, op0):
+                        ctx0 = next(iter(ctxs.values()))
+                        try:
+                            ctx0.store_model_entry(e0['me'])
+                            base.apply_ack(ref, op0)
+                            stats['probe.hot_key_prestored'] = stats.get('probe.hot_key_prestored', 0) + 1
+                        except Exception:
+                            failed_ops.append(op0)     # e.g. PENDING left by an earlier phase
                 for tspec in prog['threads']:
                     k.spawn(make_client(tspec), tspec['name'], pid=tspec['rpid'])
                 outcome = k.run()
